@@ -102,6 +102,18 @@ def kernels(tier):
             return [(f"{Q}::from_scaled_axis[{j}] * |v| == v[{j}] sin(|v|/2)", h.eq(o[j] * r, x[j] * sh)) for j in range(3)] + [(f"{Q}::from_scaled_axis.w", h.eq(o[3], ch))]
         ks.append(K(f"{Q.lower()}_from_scaled_axis", 3, 4, f"{wr}(o, 0, {Q}::from_scaled_axis({v3}(i, 0)));", obs_, hyps=lambda x, h: [n2(x[0:3]) > 0], elem=elem, site=f"{Q}::from_scaled_axis",
                     desc=f"{Q}::from_scaled_axis(v) == from_axis_angle(v/|v|, |v|) for v != 0"))
+    # ---- extraction direction, axis-angle: from_axis_angle(to_axis_angle(q)) == q for every unit q (atan2 as a constrained symbol: sin t * r = y, cos t * r = x)
+    for Q, q_, wr, wv, w1_, elem in (("Quat", "q", "wq", "wv3", "w1", 4), ("DQuat", "dq", "wdq", "wdv3", "wd", 8)):
+        def ob_aa(x, o, h, elem=elem):
+            l2 = n2(x[0:3])
+            tiny = h.real(__import__("fractions").Fraction(1e-8) if elem == 8 else __import__("fractions").Fraction(float(__import__("numpy").float32(1e-8))))
+            small = l2 < tiny * tiny
+            obs = [(f"from_axis_angle(to_axis_angle(q))[{j}] == q[{j}]", z3or(h, [small, h.eq(o[j], x[j])])) for j in range(4)]
+            obs.append(("returned axis is unit", z3or(h, [small, h.eq(n2(o[4:7]), 1)])))
+            return obs
+        ks.append(K(f"{Q.lower()}_to_axis_angle", 4, 8, f"let (ax, an) = {q_}(i, 0).to_axis_angle(); {wr}(o, 0, {Q}::from_axis_angle(ax, an)); {wv}(o, 4, ax); {w1_}(o, 7, an);", ob_aa,
+                    hyps=lambda x, h: [n2(x[0:4]) == 1], elem=elem, site=f"{Q}::to_axis_angle",
+                    desc=f"{Q}::to_axis_angle returns a unit axis and an angle that rebuild exactly the same quaternion (incl. w < 0), outside the |v| < 1e-8 fallback", timeout=60))
     # ---- the 24 Euler orders
     tys = [("Mat3", "wm3", 4, 3), ("Mat3A", "wm3a", 4, 3), ("Mat4", "wm4", 4, 4), ("DMat3", "wdm3", 8, 3), ("DMat4", "wdm4", 8, 4)]
     for base in ORDERS:
